@@ -11,6 +11,7 @@ use crate::Tier;
 use serde_json::json;
 use std::rc::Rc;
 
+#[derive(Clone)]
 pub enum Family {
     Class { format: Format, maxlen: usize },
     Struct(StructFamily),
@@ -158,6 +159,13 @@ pub fn conformance_totals(prop: &'static str, formats: &[Format], tier: Tier, cf
     let fams = families(format, tier);
     for fam in &fams {
         names.push(fam.name());
+        {
+            let f2 = fam.clone();
+            set_describe(Some(std::sync::Arc::new(move |idx| {
+                let data = f2.get(idx);
+                (format!("{} input {:?} (some capacity / chunking of the sweep)", format.name(), esc(&data)), json!({"kind": "next", "input": data, "input_escaped": esc(&data), "env": Env::plain(format, 3), "extra": {"driver": "Next"}}))
+            })));
+        }
         let t = par_sweep(fam.count(), 256, |idx, l| {
             let data = Rc::new(fam.get(idx));
             let rs = reference(format, &data);
